@@ -595,7 +595,7 @@ func c17TypeRun(c *mon.Ctx, i int) {
 		default:
 			cd.n.Rules = append(cd.n.Rules, model.REnum(`"other"`, "12"))
 		}
-		sp := specOf(s, model.Style{}) // renders every text: positions are those of the owner's text
+		sp := specOf(s, model.Style{})   // renders every text: positions are those of the owner's text
 		sp.UnnamedFiles = r.Chance(1, 4) // type files without a name: only the rendered line tells the files apart
 		want := cd.n.Pos
 		// the fault surfaces when the type is added (it is loaded then) or when the root is checked
